@@ -163,6 +163,11 @@ def check(am, data, model=None, hybrid=False):
                 break
         if (sec + 1) * SECTOR > total:
             out.append((('out-of-bounds', 'ce'), 'continuation sector %d beyond volume' % sec))
+    # the UDF partition is an object too: it must end inside the declared volume
+    u = am.udf
+    if u is not None and u.present and getattr(u, 'part_start', None) is not None and getattr(u, 'part_len', None) is not None:
+        if (u.part_start + u.part_len) > space:
+            out.append((('out-of-bounds', 'udf.partition'), 'UDF partition [%d,%d) ends behind the volume (%d sectors)' % (u.part_start, u.part_start + u.part_len, space)))
     # sharing iff linked
     if model is not None:
         decoded_groups = {}
@@ -264,3 +269,45 @@ def classify(am, off):
         if s <= off < s + l:
             return 'ce'
     return 'unmapped'
+
+
+def orphan_sectors(am, data):
+    """Sectors inside the declared volume that no decoded object covers (allocated but referenced by nothing)."""
+    img = am.img
+    if not img or not img.pvds or am.problems:
+        return None
+    total = img.pvds[0].space_size
+    cover = bytearray(total)
+    # mastering programs reserve path tables in units of two sectors: the spare one is slack, not a leak
+    for (k, s, l) in list(am.objects):
+        if k.startswith('path_table'):
+            n = (l // SECTOR + 1) // 2 * 2
+            a = s // SECTOR
+            cover[a:min(total, a + n)] = b'\x01' * (min(total, a + n) - a)
+    for (k, s, l) in am.objects:
+        a = s // SECTOR
+        b = min(total, (s + l + SECTOR - 1) // SECTOR)
+        if a < total:
+            cover[a:b] = b'\x01' * (b - a)
+    for s, l, o in am.ce:
+        a = s // SECTOR
+        if a < total:
+            cover[a] = 1
+    # the sector behind the volume descriptor set terminator (mkisofs' "version descriptor") is reserved
+    if img.term_sector is not None and img.term_sector + 1 < total:
+        cover[img.term_sector + 1] = 1
+    # UDF bridge layout: everything below the first anchor (sector 256) is a fixed, partly reserved region
+    if am.udf is not None and am.udf.present:
+        cover[:min(total, 257)] = b'\x01' * min(total, 257)
+    out = []
+    i = 0
+    while i < total:
+        if not cover[i]:
+            j = i
+            while j < total and not cover[j]:
+                j += 1
+            out.append((i, j - i))
+            i = j
+        else:
+            i += 1
+    return out
